@@ -276,7 +276,21 @@ class RZILTransformer(Transformer):
             return self.add_op(
                 Assignment("set_return_val", AssignmentType.ASSIGN, ret_val, src)
             )
+        if isinstance(items[0], Token) and items[0].type in ("GOTO", "CONTINUE", "BREAK"):
+            # These would be passed upwards as plain tokens and silently dropped from the instruction sequence.
+            raise NotImplementedError(f'"{items[0]}" statements are not supported.')
         return items  # Pass them upwards
+
+    def labeled_stmt(self, items):
+        # Without a handler the label and its statement end up as a raw parse tree,
+        # which never makes it into the instruction sequence.
+        raise NotImplementedError(
+            "Labeled statements (labels, case, default) are not supported."
+        )
+
+    def expr(self, items):
+        # Only comma expressions ("a = 1, b = 2") get here. All other alternatives have a single child.
+        raise NotImplementedError("Comma expressions are not supported.")
 
     def relational_expr(self, items):
         self.ext.set_token_meta_data("relational_expr")
